@@ -458,3 +458,25 @@ Proof.
     destruct (fill cf (b_queue (m_b m)) (b_queued (m_b m)) (m_k m) (b_out (m_b m))) eqn:Hf; [discriminate Hpre|].
     apply (fill_total cf _ _ _ _ Hw2 S2 S1 Hf).
 Qed.
+
+(* ---------------------------------------------------------------------------------------------- *)
+(* the three ways a call can end                                                                     *)
+(* ---------------------------------------------------------------------------------------------- *)
+Corollary outcome_dichotomy : forall cf cmds evs k tr oc k' rest,
+  config_ok cf -> 0 <= k_seq k < 65536 ->
+  select_honest cf evs k (bstate0 cmds) ->
+  Z.of_nat (datagrams k evs) + Z.of_nat (length cmds) * (cf_tries cf - 1) + 1 <= Z.of_nat (length evs) ->
+  burst cf cmds evs k = (tr, oc, k', rest) ->
+  oc = Returned \/ (exists c, oc = RaisedTimeout c) \/ (exists rc c, oc = RaisedFatal rc c).
+Proof.
+  intros cf cmds evs k tr oc k' rest Hcf Hs Hhon Hlen Hb.
+  destruct (termination cf cmds evs k tr oc k' rest Hcf Hhon Hb) as [_ Hne]. specialize (Hne Hlen).
+  pose proof (no_divergence cf cmds evs k tr oc k' rest Hcf Hs Hb) as Hnd.
+  destruct oc as [|c|rc c|rc| |].
+  - left. reflexivity.
+  - right. left. exists c. reflexivity.
+  - right. right. exists rc, c. reflexivity.
+  - exfalso. apply (no_key_error cf cmds evs k tr rc k' rest Hb).
+  - exfalso. apply Hne. reflexivity.
+  - exfalso. apply Hnd. reflexivity.
+Qed.
